@@ -1,5 +1,6 @@
 import Driver.Loop
 import Driver.C07
+import Driver.C20
 
 /-- handlers of this executable; each builder adds `Driver.Cxx.handle` here -/
-def main : IO Unit := Driver.runMain [Driver.C07.handle]
+def main : IO Unit := Driver.runMain [Driver.C07.handle, Driver.C20.handle]
